@@ -120,12 +120,13 @@ type Store struct {
 	tab   map[string]*Term
 	terms []*Term
 	vars  map[string]*Term
+	intBits map[int]int // signed bit bound of 64-bit terms produced by the IntFloat rewrite
 	True  *Term
 	False *Term
 }
 
 func NewStore() *Store {
-	st := &Store{tab: map[string]*Term{}, vars: map[string]*Term{}}
+	st := &Store{tab: map[string]*Term{}, vars: map[string]*Term{}, intBits: map[int]int{}}
 	st.True = st.mk(&Term{Op: OConst, S: SBool, C: 1})
 	st.False = st.mk(&Term{Op: OConst, S: SBool, C: 0})
 	return st
@@ -868,11 +869,104 @@ func (st *Store) Concat(a, b *Term) *Term {
 
 // ---- floats ----
 
+// sbits returns n such that the signed value of a lies in [-2^(n-1), 2^(n-1)).
+func (st *Store) sbits(a *Term) int {
+	if b, ok := st.intBits[a.ID]; ok {
+		return b
+	}
+	switch a.Op {
+	case OConst:
+		v := sx(a.C, a.S.W)
+		if v < 0 {
+			v = ^v
+		}
+		return bits.Len64(uint64(v)) + 1
+	case OZExt:
+		if a.A[0].S.W < a.S.W {
+			return a.A[0].S.W + 1
+		}
+	case OSExt:
+		return st.sbits(a.A[0])
+	}
+	return a.S.W
+}
+
+// fpInt recognises float terms whose value is exactly a (small) integer and returns that
+// integer as a 64-bit term together with its signed bit bound (IntFloat fast path).
+// Values produced here are never -0, so +,-,compare and truncation agree with IEEE.
+func (st *Store) fpInt(t *Term) (*Term, int, bool) {
+	switch t.Op {
+	case OConst:
+		f := t.F()
+		if f == math.Trunc(f) && math.Abs(f) <= 1<<52 && !(f == 0 && math.Signbit(f)) {
+			c := st.BVs(64, int64(f))
+			return c, st.sbits(c), true
+		}
+	case OFFromS:
+		b := st.sbits(t.A[0])
+		if b <= 54 {
+			return st.SExt(t.A[0], 64), b, true
+		}
+	case OFFromU:
+		a := t.A[0]
+		if a.S.W <= 53 {
+			return st.ZExt(a, 64), a.S.W + 1, true
+		}
+		if b := st.sbits(a); b <= 54 && a.S.W == 64 {
+			// 64-bit term known to be small and (as it came from the rewrite) interpreted signed;
+			// only safe when known non-negative: not tracked, so give up
+			_ = b
+		}
+	}
+	return nil, 0, false
+}
+
+func (st *Store) mkIntFloat(iv *Term, b int) *Term {
+	if iv.Op != OConst {
+		st.intBits[iv.ID] = b
+	}
+	return st.build(OFFromS, SFP, 0, 0, iv)
+}
+
 func (st *Store) FBin(op Op, a, b *Term) *Term {
 	s := SFP
 	switch op {
 	case OFLt, OFLe, OFEq:
 		s = SBool
+	}
+	if a.Op != OConst || b.Op != OConst {
+		if ia, ba, ok := st.fpInt(a); ok {
+			if ib, bb, ok := st.fpInt(b); ok {
+				mb := ba
+				if bb > mb {
+					mb = bb
+				}
+				switch op {
+				case OFAdd:
+					if mb+1 <= 54 {
+						return st.mkIntFloat(st.Bin(OAdd, ia, ib), mb+1)
+					}
+				case OFSub:
+					if mb+1 <= 54 {
+						return st.mkIntFloat(st.Bin(OSub, ia, ib), mb+1)
+					}
+				case OFMul:
+					// only by a positive constant (keeps the sign of zero right)
+					if b.Op == OConst && b.F() > 0 && ba+bb <= 54 {
+						return st.mkIntFloat(st.Bin(OMul, ia, ib), ba+bb)
+					}
+					if a.Op == OConst && a.F() > 0 && ba+bb <= 54 {
+						return st.mkIntFloat(st.Bin(OMul, ia, ib), ba+bb)
+					}
+				case OFEq:
+					return st.Eq(ia, ib)
+				case OFLt:
+					return st.Bin(OSLt, ia, ib)
+				case OFLe:
+					return st.Bin(OSLe, ia, ib)
+				}
+			}
+		}
 	}
 	return st.build(op, s, 0, 0, a, b)
 }
@@ -886,14 +980,20 @@ func (st *Store) FUn(op Op, a *Term) *Term {
 	if op == OFNeg && a.Op == OFNeg {
 		return a.A[0]
 	}
+	if a.Op != OConst {
+		if _, _, ok := st.fpInt(a); ok {
+			switch op {
+			case OFIsNaN, OFIsInf:
+				return st.False
+			}
+		}
+	}
 	return st.build(op, s, 0, 0, a)
 }
 
 func (st *Store) FRound(a *Term, mode int) *Term {
-	if a.Op == OFFromS || a.Op == OFFromU {
-		if a.A[0].S.W <= 53 {
-			return a
-		}
+	if _, _, ok := st.fpInt(a); ok {
+		return a
 	}
 	if a.Op == OFRound {
 		return a
@@ -903,13 +1003,12 @@ func (st *Store) FRound(a *Term, mode int) *Term {
 
 func (st *Store) FFromS(a *Term) *Term { return st.build(OFFromS, SFP, 0, 0, a) }
 func (st *Store) FFromU(a *Term) *Term { return st.build(OFFromU, SFP, 0, 0, a) }
+
+// FToS converts with truncation to a signed w-bit integer; exact fast path for IntFloat
+// values that fit (callers handle out-of-range semantics).
 func (st *Store) FToS(a *Term, w int) *Term {
-	// int(float(x)) for small x
-	if a.Op == OFFromS && a.A[0].S.W <= 53 {
-		return st.SExt(a.A[0], w)
-	}
-	if a.Op == OFFromU && a.A[0].S.W <= 52 {
-		return st.ZExt(a.A[0], w)
+	if iv, b, ok := st.fpInt(a); ok && b <= w {
+		return st.Extract(iv, w-1, 0)
 	}
 	return st.build(OFToS, SBV(w), 0, 0, a)
 }
